@@ -106,6 +106,8 @@ impl<'a> BTreeIterator<'a> {
 		let log = self.log.read();
 		let record_id = log.last_record_id(self.col);
 		self.last_key = LastKey::End;
+		// As in `seek`: an item buffered by an earlier step belongs to the old position.
+		self.pending_backend = None;
 		self.seek_backend_to_last(record_id, self.table, &*log)
 	}
 
